@@ -7,6 +7,7 @@ import (
 	"go/ast"
 	"go/token"
 	"go/types"
+	"sort"
 	"strings"
 )
 
@@ -699,7 +700,7 @@ func (x *Unit) tagsOr(tags []string) []string {
 	return out
 }
 
-func (x *Unit) havocForLoop(st *State, ms *modSet) {
+func (x *Unit) havocForLoop(st *State, ms *modSet, loop ast.Stmt) {
 	for v := range ms.vars {
 		if _, ok := st.vars[v]; ok {
 			vv := v.(*types.Var)
@@ -725,17 +726,38 @@ func (x *Unit) havocForLoop(st *State, ms *modSet) {
 		}
 	}
 	if ms.calls {
-		// traces and clock advance
+		// traces only grow: old entries are kept, times are strictly increasing and below the clock
+		x.regComp("clk", SInt)
+		oldClk := x.get(st, "clk")
+		x.havocComp(st, "clk")
+		newClk := x.get(st, "clk")
+		x.assumes = append(x.assumes, "(>= "+newClk.S+" "+oldClk.S+")")
+		var keys []string
 		for c := range x.compSorts {
-			if strings.HasPrefix(c, "TL:") || strings.HasPrefix(c, "TA:") || strings.HasPrefix(c, "TR:") || strings.HasPrefix(c, "TT:") || c == "clk" {
-				old := x.get(st, c)
-				x.havocComp(st, c)
-				if strings.HasPrefix(c, "TL:") || c == "clk" {
-					x.assumes = append(x.assumes, "(>= "+x.get(st, c).S+" "+old.S+")")
-				}
+			if strings.HasPrefix(c, "TL:") && (x.pass < 2 || x.loopKeys[loop][c[3:]]) {
+				keys = append(keys, c[3:])
 			}
 		}
-		x.loopTraceHavoc = append(x.loopTraceHavoc, st)
+		sort.Strings(keys)
+		for _, k := range keys {
+			oldN := x.get(st, "TL:"+k)
+			x.havocComp(st, "TL:"+k)
+			newN := x.get(st, "TL:"+k)
+			x.assumes = append(x.assumes, "(>= "+newN.S+" "+oldN.S+")")
+			for c := range x.compSorts {
+				if strings.HasPrefix(c, "TA:"+k+":") || strings.HasPrefix(c, "TR:"+k+":") || c == "TT:"+k {
+					oldA := x.get(st, c)
+					x.havocComp(st, c)
+					newA := x.get(st, c)
+					x.assumes = append(x.assumes, fmt.Sprintf("(forall ((bv!i Int)) (! (=> (< bv!i %s) (= (select %s bv!i) (select %s bv!i))) :pattern ((select %s bv!i))))", oldN.S, newA.S, oldA.S, newA.S))
+				}
+			}
+			if _, ok := x.compSorts["TT:"+k]; ok {
+				tt := x.get(st, "TT:"+k)
+				x.assumes = append(x.assumes, fmt.Sprintf("(forall ((bv!i Int)) (! (=> (and (<= %s bv!i) (< bv!i %s)) (and (<= %s (select %s bv!i)) (< (select %s bv!i) %s))) :pattern ((select %s bv!i))))", oldN.S, newN.S, oldClk.S, tt.S, tt.S, newClk.S, tt.S))
+				x.assumes = append(x.assumes, fmt.Sprintf("(forall ((bv!i Int) (bv!j Int)) (! (=> (and (<= 0 bv!i) (< bv!i bv!j) (< bv!j %s)) (< (select %s bv!i) (select %s bv!j))) :pattern ((select %s bv!i) (select %s bv!j))))", newN.S, tt.S, tt.S, tt.S, tt.S))
+			}
+		}
 	}
 	for g := range ms.ghosts {
 		x.havocComp(st, "gh:"+g)
@@ -753,7 +775,7 @@ func (x *Unit) forStmt(st *State, s *ast.ForStmt, label string) *State {
 	ms := x.modsOf(s.Body, s.Post, s.Cond)
 	x.checkInvariants(st, ls, "inv.entry", s, nil)
 	h := st.clone()
-	x.havocForLoop(h, ms)
+	x.havocForLoop(h, ms, s)
 	x.assumeInvariants(h, ls, nil)
 	var variant Term
 	if ls != nil && ls.Decreases != nil {
@@ -767,6 +789,7 @@ func (x *Unit) forStmt(st *State, s *ast.ForStmt, label string) *State {
 	exit := x.withCond(h, Not(c))
 	lp := &loopCtx{label: label}
 	x.fr.brkStack = append(x.fr.brkStack, brkEntry{lp: lp})
+	x.loopStmtStack = append(x.loopStmtStack, s)
 	out := x.block(body, s.Body.List)
 	x.fr.brkStack = x.fr.brkStack[:len(x.fr.brkStack)-1]
 	end := x.merge(append([]*State{out}, lp.continues...)...)
@@ -783,6 +806,7 @@ func (x *Unit) forStmt(st *State, s *ast.ForStmt, label string) *State {
 			x.oblige(end, "decreases", fmt.Sprintf("loop%s", ls.ID), x.tagsOr(ls.Decreases.Tags), T("(and (>= "+variant.S+" 0) (< "+nv.S+" "+variant.S+"))", SBool), ls.Decreases.Src, s)
 		}
 	}
+	x.loopStmtStack = x.loopStmtStack[:len(x.loopStmtStack)-1]
 	return x.merge(append([]*State{exit}, lp.breaks...)...)
 }
 
@@ -830,7 +854,7 @@ func (x *Unit) rangeStmt(st *State, s *ast.RangeStmt, label string) *State {
 		}
 		x.checkInvariants(st, ls, "inv.entry", s, extra0)
 		h := st.clone()
-		x.havocForLoop(h, ms)
+		x.havocForLoop(h, ms, s)
 		idx := x.freshVal("idx", SInt, types.Typ[types.Int])
 		x.assume(h, T("(and (<= 0 "+idx.S+") (<= "+idx.S+" "+n.S+"))", SBool))
 		extra := map[string]Term{"idx": idx}
@@ -856,7 +880,9 @@ func (x *Unit) rangeStmt(st *State, s *ast.RangeStmt, label string) *State {
 		lp := &loopCtx{label: label}
 		x.fr.brkStack = append(x.fr.brkStack, brkEntry{lp: lp})
 		x.idxStack = append(x.idxStack, idx)
+		x.loopStmtStack = append(x.loopStmtStack, s)
 		out := x.block(body, s.Body.List)
+		x.loopStmtStack = x.loopStmtStack[:len(x.loopStmtStack)-1]
 		x.idxStack = x.idxStack[:len(x.idxStack)-1]
 		x.fr.brkStack = x.fr.brkStack[:len(x.fr.brkStack)-1]
 		end := x.merge(append([]*State{out}, lp.continues...)...)
@@ -883,7 +909,7 @@ func (x *Unit) rangeStmt(st *State, s *ast.RangeStmt, label string) *State {
 		seen0 := T("((as const (Array "+ks.Name+" Bool)) false)", seenSort)
 		x.checkInvariants(st, ls, "inv.entry", s, map[string]Term{"seen": seen0})
 		h := st.clone()
-		x.havocForLoop(h, ms)
+		x.havocForLoop(h, ms, s)
 		seen := x.freshVal("seen", seenSort, nil)
 		domNow := x.define("rdom", Select(x.get(h, dom), m))
 		// seen ⊆ dom  (inductive by construction: the body may not change dom of the ranged map)
@@ -914,7 +940,9 @@ func (x *Unit) rangeStmt(st *State, s *ast.RangeStmt, label string) *State {
 		x.fr.brkStack = append(x.fr.brkStack, brkEntry{lp: lp})
 		x.seenStack = append(x.seenStack, seen)
 		x.rkStack = append(x.rkStack, k)
+		x.loopStmtStack = append(x.loopStmtStack, s)
 		out := x.block(body, s.Body.List)
+		x.loopStmtStack = x.loopStmtStack[:len(x.loopStmtStack)-1]
 		x.fr.brkStack = x.fr.brkStack[:len(x.fr.brkStack)-1]
 		end := x.merge(append([]*State{out}, lp.continues...)...)
 		if !end.dead() {
